@@ -105,6 +105,54 @@ def anchor_files(pid):
     return set(_anchors.get(pid, [])) | set(EXTRA_FILES.get(pid, []))
 
 
+# General-purpose modules (lists, hash tables, strings, memory pools, counters, main loop, watches, timeouts, system
+# wrappers ...): not anchored in any one property, used by the code of most.  A property's scope is the functions of its
+# anchor files plus the functions of these modules that its anchor code calls, directly or through other such functions.
+BASIC_FILES = {'dbus/dbus-string.c', 'dbus/dbus-list.c', 'dbus/dbus-hash.c', 'dbus/dbus-marshal-basic.c',
+               'dbus/dbus-sysdeps-unix.c'}
+_scope_cache = {}
+
+
+def support_files(prog):
+    allanch = set()
+    for i in range(1, 21):
+        allanch |= anchor_files('C%02d' % i)
+    files = {f.file for f in prog.funcs.values()
+             if prog.is_production(f) and f.file.endswith('.c') and (f.file.startswith('dbus/') or f.file.startswith('bus/'))}
+    return (files - allanch) | BASIC_FILES
+
+
+def scope_keys(prog, pid):
+    key = (id(prog), pid)
+    if key not in _scope_cache:
+        anch = anchor_files(pid)
+        own = {f.key for f in prog.funcs.values() if f.file in anch and prog.is_production(f)}
+        reach = set()
+        if os.environ.get('VERIF_NO_SUPPORT_SCOPE') != '1':
+            util = support_files(prog)
+            if prog._callees is None:
+                prog._build_graph()
+            st = list(own)
+            while st:
+                k = st.pop()
+                for c in prog._callees.get(k, ()):
+                    g = prog.funcs.get(c)
+                    if g is None or c in reach or c in own:
+                        continue
+                    if g.file in util and prog.is_production(g):
+                        reach.add(c)
+                        st.append(c)
+        _scope_cache.clear()            # one program at a time is alive
+        _scope_cache[key] = (own, reach)
+    own, reach = _scope_cache[key]
+    return own, reach
+
+
+def in_scope(prog, pid, f):
+    own, reach = scope_keys(prog, pid)
+    return f.key in own or f.key in reach
+
+
 def fallible_names(prog):
     """Functions returning dbus_bool_t that have a literal `return FALSE`."""
     out = set()
@@ -152,7 +200,7 @@ def error_discipline(ck, prog):
     names = fallible_names(prog)
     n = 0
     for f in prog.funcs.values():
-        if f.file not in files or not prog.is_production(f):
+        if not in_scope(prog, ck.pid, f):
             continue
         used = None
         for b, i, c in f.calls():
@@ -209,7 +257,7 @@ def onebit_stores(ck, prog):
         return False
     n = 0
     for f in prog.funcs.values():
-        if f.file not in files or not prog.is_production(f):
+        if not in_scope(prog, ck.pid, f):
             continue
         for b, i, ev in f.events():
             if ev['ev'] != 'assign' or ev['e'].get('op') != '=':
@@ -292,7 +340,7 @@ def boundary_comparisons(ck, prog):
                        'it was rejected (or the reverse)', floor=5)
     n = 0
     for f in prog.funcs.values():
-        if f.file not in files or not prog.is_production(f):
+        if not in_scope(prog, ck.pid, f):
             continue
         ref = base.get(f.file, {}).get(f.name)
         if not ref:
@@ -377,7 +425,7 @@ def constant_arguments(ck, prog):
                        'error name, the wrong header field or flag is used', floor=5)
     n = 0
     for f in prog.funcs.values():
-        if f.file not in files or not prog.is_production(f):
+        if not in_scope(prog, ck.pid, f):
             continue
         ref = base.get(f.file, {}).get(f.name)
         if not ref:
@@ -452,7 +500,7 @@ def field_widths(ck, prog):
         return is_member(e) and (e.get('rec'), e.get('field')) not in bits
 
     for f in prog.funcs.values():
-        if f.file not in files or not prog.is_production(f):
+        if not in_scope(prog, ck.pid, f):
             continue
         tops = []
         for b, i, ev in f.events():
@@ -556,7 +604,7 @@ def allocation_results(ck, prog):
     names = allocating_nullable(prog)
     n = 0
     for f in prog.funcs.values():
-        if f.file not in files or not prog.is_production(f):
+        if not in_scope(prog, ck.pid, f):
             continue
         conds = None
         for b, i, ev in f.events():
@@ -628,7 +676,7 @@ def widened_sentinels(ck, prog):
                        'sentinel and is taken for a real identity / size', floor=0)
     n = 0
     for f in prog.funcs.values():
-        if f.file not in files or not prog.is_production(f):
+        if not in_scope(prog, ck.pid, f):
             continue
         tops = []
         assigns = []
@@ -732,7 +780,7 @@ def argument_roles(ck, prog):
                        'instead of the old one): the callee decides about the wrong object', floor=5)
     n = 0
     for f in prog.funcs.values():
-        if f.file not in files or not prog.is_production(f):
+        if not in_scope(prog, ck.pid, f):
             continue
         ref = base.get(f.file, {}).get(f.name)
         if not ref or ref.get('#params') != [p['name'] for p in f.params]:
@@ -943,7 +991,7 @@ def more_profiles(ck, prog):
                         'element early, a cursor lands one byte off', floor=0)
     nr = nf = no = 0
     for f in prog.funcs.values():
-        if f.file not in files or not prog.is_production(f):
+        if not in_scope(prog, ck.pid, f):
             continue
         ref = base.get(f.file, {}).get(f.name)
         if not ref:
@@ -1037,7 +1085,7 @@ def list_walks(ck, prog):
         return None
     n = 0
     for f in prog.funcs.values():
-        if f.file not in files or not prog.is_production(f):
+        if not in_scope(prog, ck.pid, f):
             continue
         heads = {}
         ends = {}
@@ -1247,7 +1295,7 @@ def condition_functions(ck, prog):
                 floor=0)
     n = 0
     for f in prog.funcs.values():
-        if f.file not in files or not prog.is_production(f):
+        if not in_scope(prog, ck.pid, f):
             continue
         ref = base.get(f.file, {}).get(f.name, {}).get('T')
         if not ref:
@@ -1295,7 +1343,7 @@ def never_set_values(ck, prog):
                 floor=0)
     n = 0
     for f in prog.funcs.values():
-        if f.file not in files or not prog.is_production(f):
+        if not in_scope(prog, ck.pid, f):
             continue
         writes = {}
         for b, i, ev in f.events():
@@ -1461,7 +1509,7 @@ def fresh_reads(ck, prog):
                 floor=0)
     n = 0
     for f in prog.funcs.values():
-        if f.file not in files or not prog.is_production(f):
+        if not in_scope(prog, ck.pid, f):
             continue
         for line, k, sl in fresh_object_reads(f):
             n += 1
@@ -1530,7 +1578,7 @@ def accessors(ck, prog):
                 'socket"', floor=0)
     n = 0
     for f in prog.funcs.values():
-        if f.file not in files or not prog.is_production(f):
+        if not in_scope(prog, ck.pid, f):
             continue
         a = accessor_fields(prog, f)
         if a is None:
@@ -1589,7 +1637,7 @@ def callee_identity(ck, prog):
     n = 0
     have = set(prog.by_name)
     for f in prog.funcs.values():
-        if f.file not in files or not prog.is_production(f):
+        if not in_scope(prog, ck.pid, f):
             continue
         ref = base.get(f.file, {}).get(f.name, {}).get('V')
         if not ref:
